@@ -631,3 +631,210 @@ Proof.
     + apply (G x2 x1 v2 Hv2 B2 Hx1U); auto; intros z [-> | ->]; auto.
 Qed.
 End LastCheck.
+
+(* ---------------------------------------------------------------------------------------------- *)
+(* 7. the canonical run of a single-peaked target                                                  *)
+
+Lemma mkset_comm a b : mkset a b = mkset b a.
+Proof.
+  unfold mkset. destruct (N.eqb_spec a b) as [->|Hne].
+  - now rewrite N.eqb_refl.
+  - destruct (N.eqb_spec b a) as [E|_]; [congruence|].
+    destruct (N.ltb_spec a b), (N.ltb_spec b a); try reflexivity; lia.
+Qed.
+
+Lemma nth_in_firstn {T} d n : forall (l : list T) k', k' < n -> k' < length l -> In (nth k' l d) (firstn n l).
+Proof.
+  induction n as [|n IHn]; intros l k' H2 H3; [lia|].
+  destruct l as [|y l]; [simpl in H3; lia|]. destruct k' as [|k']; [now left|]. simpl. right. apply IHn; simpl in *; lia.
+Qed.
+
+Lemma nth_in_firstn_skipn {T} d n k : forall (l : list T) k', k <= k' -> k' < k + n -> k' < length l ->
+  In (nth k' l d) (firstn n (skipn k l)).
+Proof.
+  induction k as [|k IH]; intros l k' H1 H2 H3.
+  - simpl. apply nth_in_firstn; lia.
+  - destruct l as [|y l]; [simpl in H3; lia|]. destruct k' as [|k']; [lia|]. simpl. apply IH; simpl in *; lia.
+Qed.
+
+Section Canon.
+Variables (alts : list N) (votes : list (list N)).
+Hypothesis Halts : NoDup alts.
+Hypothesis Hvotes : forall v, In v votes -> NoDup v /\ incl alts v.
+Hypothesis Hvne : votes <> [].
+Variable pair_first : N -> N -> bool.
+Variable ext_order : list (list N) -> list (list N).
+Hypothesis Hext : forall l X, In X (ext_order l) <-> In X l.
+Let m := length alts.
+Let Ls := get_L_sets alts votes.
+Let Hext1 : forall l X, In X (ext_order l) -> In X l := fun l X => proj1 (Hext l X).
+
+Notation remPk := (remP alts votes).
+Notation lev := (at_level alts votes).
+
+Lemma remP_Gd k u : In u (remPk k) <-> Gd alts (Lspec alts votes k) u = true.
+Proof. rewrite remP_in, (Gd_true alts). reflexivity. Qed.
+
+Lemma level_of u : In u alts -> exists k, k < m /\ lev k u.
+Proof. intros H. apply level_total; auto. Qed.
+
+Lemma remP_level_ge j k u : In u (remPk j) -> lev k u -> j <= k.
+Proof.
+  intros Hr Hl. destruct (le_lt_dec j k) as [|Hlt]; [assumption|exfalso].
+  apply remP_in in Hr. apply (proj2 Hr). now apply (level_in_Lspec alts votes k j).
+Qed.
+
+Lemma min_level n : forall U j, m - j <= n -> U <> [] -> incl U alts -> (forall u, In u U -> In u (remPk j)) ->
+  exists k, j <= k /\ k < m /\ (forall u, In u U -> In u (remPk k)) /\ exists x, In x U /\ lev k x.
+Proof.
+  induction n as [|n IH]; intros U j Hn HU Hin Hrem.
+  - destruct U as [|u0 U']; [congruence|]. destruct (level_of u0 (Hin u0 (or_introl eq_refl))) as (k0 & Hk0 & Hl0).
+    pose proof (remP_level_ge j k0 u0 (Hrem u0 (or_introl eq_refl)) Hl0). lia.
+  - destruct (existsb (fun u => memN u (next_level alts votes (Lspec alts votes j))) U) eqn:E.
+    + apply existsb_exists in E. destruct E as (x & Hx & Hm). apply memN_In in Hm.
+      destruct (level_of x (Hin x Hx)) as (k0 & Hk0 & Hl0).
+      assert (k0 = j).
+      { destruct (Nat.lt_trichotomy k0 j) as [H|[H|H]]; [|assumption|]; exfalso.
+        - apply (levels_disjoint alts votes Hvotes k0 j x H Hl0 Hm).
+        - apply (levels_disjoint alts votes Hvotes j k0 x H Hm Hl0). }
+      subst k0. exists j. repeat split; auto. exists x. auto.
+    + assert (Hno : forall u, In u U -> ~ lev j u).
+      { intros u Hu Hl. assert (existsb (fun u => memN u (next_level alts votes (Lspec alts votes j))) U = true); [|congruence].
+        apply existsb_exists. exists u. split; [assumption|now apply memN_In]. }
+      assert (Hjm : S j <= m).
+      { destruct U as [|u0 U']; [congruence|]. destruct (level_of u0 (Hin u0 (or_introl eq_refl))) as (k0 & Hk0 & Hl0).
+        pose proof (remP_level_ge j k0 u0 (Hrem u0 (or_introl eq_refl)) Hl0).
+        destruct (Nat.eq_dec k0 j) as [->|]; [exfalso; apply (Hno u0 (or_introl eq_refl) Hl0)|lia]. }
+      destruct (IH U (S j) ltac:(lia) HU Hin) as (k & H1 & H2 & H3 & H4).
+      * intros u Hu. apply remP_in. split; [now apply Hin|]. intros Hc. cbn [Lspec] in Hc. rewrite concat_app in Hc.
+        apply in_app_or in Hc. destruct Hc as [Hc|Hc]; [pose proof (Hrem u Hu) as Hr; apply remP_in in Hr; apply (proj2 Hr Hc)|].
+        simpl in Hc. rewrite app_nil_r in Hc. now apply (Hno u Hu).
+      * exists k. repeat split; auto. lia.
+Qed.
+
+Lemma level_bottom U k x : (forall u, In u U -> In u (remPk k)) -> In x U -> lev k x -> isbottom votes U x.
+Proof.
+  intros Hrem Hx Hl. apply (next_level_iff alts votes Hvotes) in Hl. destruct Hl as (_ & v & Hv & Hb).
+  exists v. split; [assumption|]. split; [assumption|]. intros u Hu Hne. apply Hb; [|assumption]. now apply remP_Gd, Hrem.
+Qed.
+
+(* the partner of a bottom at level k is eligible: it cannot sit alone in the last of the |alts| levels *)
+Lemma partner_level U k x x' : (forall u, In u U -> In u (remPk k)) -> incl U alts -> In x U -> lev k x -> k < m ->
+  isbottom votes U x' -> x' <> x -> exists k', k <= k' /\ k' + 1 < m + (if Nat.eqb k' k then 1 else 0) /\ lev k' x'.
+Proof.
+  intros Hrem Hin Hx Hl Hk (w & Hw & Bw) Hne.
+  assert (Hx' : In x' U) by apply Bw.
+  destruct (level_of x' (Hin x' Hx')) as (k' & Hk' & Hl').
+  pose proof (remP_level_ge k k' x' (Hrem x' Hx') Hl') as Hge.
+  exists k'. split; [assumption|]. split; [|assumption].
+  destruct (Nat.eqb_spec k' k) as [->|Hkk]; [lia|].
+  destruct (Nat.eq_dec k' (m - 1)) as [E|]; [exfalso|lia].
+  (* every level is a singleton; the vote w ranks x last among the remaining ones, hence below x' *)
+  destruct (Hvotes w Hw) as [Nw Iw].
+  destruct (exists_worst w (remaining_after alts (Lspec alts votes k)) Nw) as (d & Hd & Hbot).
+  { intros b Hb. apply (remaining_in alts) in Hb. apply Iw. tauto. }
+  { intros E0. assert (In x (remaining_after alts (Lspec alts votes k))); [|rewrite E0 in H; contradiction].
+    apply (remaining_in alts). apply remP_in. now apply Hrem. }
+  assert (Hld : lev k d).
+  { apply (next_level_iff alts votes Hvotes). apply (remaining_in alts) in Hd. split; [now apply (Gd_true alts)|].
+    exists w. split; [assumption|]. intros b Gb Hb. apply Hbot; [|assumption]. apply (remaining_in alts). now apply (Gd_true alts) in Gb. }
+  assert (d = x).
+  { subst k'. eapply (top_level_singletons alts votes) with (a := x') (k := k); try eassumption; auto. }
+  subst d.
+  assert (H1 : rk w x' < rk w x).
+  { apply Hbot; [|assumption]. apply (remaining_in alts). apply remP_in. now apply Hrem. }
+  assert (H2 : rk w x < rk w x') by (apply (proj2 Bw); auto). lia.
+Qed.
+
+Lemma eligible_complete k Y x x' : k < m -> lev k x ->
+  (exists k', k <= k' /\ k' + 1 < m + (if Nat.eqb k' k then 1 else 0) /\ lev k' x') ->
+  last_check votes Y x x' = true -> In (mkset x x') (eligible ext_order (S k) m Y Ls votes).
+Proof.
+  intros Hk Hl (k' & Hge & Hlt & Hl') Hlc. unfold eligible. apply Hext. apply nodup_In.
+  assert (ELs : Ls = Lspec alts votes m) by apply get_L_sets_spec.
+  assert (Enth : forall j, j < m -> nth j Ls [] = next_level alts votes (Lspec alts votes j)).
+  { intros j Hj. rewrite ELs. now apply Lspec_nth. }
+  replace (S k - 1) with k by lia. apply in_flat_map. exists x. split; [rewrite Enth by assumption; exact Hl|].
+  apply in_flat_map. exists x'. split; [|rewrite Hlc; now left].
+  apply dedupN_complete. apply in_or_app. destruct (Nat.eqb_spec k' k) as [->|Hkk].
+  - left. rewrite Enth by assumption. exact Hl'.
+  - right. apply in_concat. exists (nth k' Ls []). split.
+    + apply nth_in_firstn_skipn; [assumption|lia|]. rewrite ELs, Lspec_length. lia.
+    + rewrite Enth by lia. exact Hl'.
+Qed.
+
+Definition PrevLast (Y U : list N) : Prop :=
+  Y = [] \/ forall v, In v votes -> exists y, In y Y /\ forall u, In u U -> rk v u < rk v y.
+
+Notation RunC := (Run alts votes pair_first ext_order).
+
+Lemma canon n : forall j A Y U, length U <= n -> RunC j A Y -> completable votes A U ->
+  NoDup (pa_elems A ++ U) -> incl (pa_elems A ++ U) alts -> (forall u, In u U -> In u (remPk j)) ->
+  PrevLast Y U -> incl Y alts ->
+  (exists j' A' Y', RunC j' A' Y' /\ pa_len A' = pa_len A + length U) \/
+  (exists j0 A0 Y0 i X A', RunC j0 A0 Y0 /\ j0 < i /\ i <= m /\ In X (eligible ext_order i m Y0 Ls votes) /\
+     place pair_first A0 X votes = (A', false) /\ pa_eqb A' A0 = false /\ pa_len A' = pa_len A + length U).
+Proof.
+  induction n as [|n IH]; intros j A Y U Hn HR Hc Hnd Hin Hrem Hprev HY.
+  - destruct U; [|simpl in Hn; lia]. left. exists j, A, Y. split; [assumption|cbn [length]; lia].
+  - destruct U as [|u0 U0] eqn:EU; [left; exists j, A, Y; split; [assumption|cbn [length]; lia]|]. rewrite <- EU in *.
+    assert (HUne : U <> []) by (rewrite EU; discriminate).
+    assert (HinU : incl U alts) by (intros a Ha; apply Hin; apply in_or_app; now right).
+    assert (Hwf : forall v, In v votes -> NoDup v /\ incl (pa_elems A ++ U) v).
+    { intros v Hv. destruct (Hvotes v Hv) as [N1 N2]. split; [assumption|]. intros a Ha. apply N2. now apply Hin. }
+    destruct (place_complete votes Hvne pair_first A U HUne Hnd Hwf Hc)
+      as (x1 & x2 & B1 & B2 & Bcov & A' & ok & Hpl & Hlen & Hperm & Hc' & Hok & Hne).
+    set (X := mkset x1 x2) in *.
+    destruct (min_level (m - j) U j (Nat.le_refl _) HUne HinU Hrem) as (k & Hjk & Hkm & Hremk & x & Hx & Hlx).
+    pose proof (level_bottom U k x Hremk Hx Hlx) as Bx.
+    assert (Hx1U : In x1 U) by (destruct B1 as (? & _ & H & _); exact H).
+    assert (Hx2U : In x2 U) by (destruct B2 as (? & _ & H & _); exact H).
+    (* X is eligible at round k + 1 *)
+    assert (Hel : In X (eligible ext_order (S k) m Y Ls votes)).
+    { assert (Hlc : last_check votes Y x1 x2 = true) by (apply (last_check_complete alts votes Hvotes Y U); auto).
+      destruct (Bcov x Bx) as [-> | ->].
+      - apply eligible_complete; auto.
+        destruct (N.eq_dec x2 x1) as [->|Hd]; [exists k; rewrite Nat.eqb_refl; repeat split; auto; lia|].
+        apply (partner_level U k x1 x2); auto.
+      - unfold X. rewrite mkset_comm. apply eligible_complete; auto.
+        + destruct (N.eq_dec x1 x2) as [->|Hd]; [exists k; rewrite Nat.eqb_refl; repeat split; auto; lia|].
+          apply (partner_level U k x2 x1); auto.
+        + assert (Hlc' : last_check votes Y x2 x1 = true) by (apply (last_check_complete alts votes Hvotes Y U); auto).
+          exact Hlc'. }
+    assert (HlenU : length U = length X + length (rest X U)).
+    { apply Permutation_length in Hperm. rewrite !app_length in Hperm.
+      assert (Hres : forall B, S (length (pa_elems B)) = pa_len B).
+      { intros [M1 M2]. unfold pa_elems, pa_len. cbn [fst snd]. rewrite app_length, rev_length. reflexivity. }
+      pose proof (Hres A). pose proof (Hres A'). lia. }
+    assert (HX1 : 1 <= length X) by (unfold X, mkset; destruct (N.eqb x1 x2); [simpl; lia|destruct (N.ltb x1 x2); simpl; lia]).
+    destruct (rest X U) as [|r0 R0] eqn:ER.
+    + (* the last step *)
+      destruct ok.
+      * left. exists (S k), A', X. split; [|simpl in HlenU; lia].
+        apply (runS alts votes pair_first ext_order j A Y (S k) X A'); auto; lia.
+      * right. exists j, A, Y, (S k), X, A'. repeat split; auto; try lia. simpl in HlenU. lia.
+    + assert (Hok' : ok = true) by (apply Hok; discriminate). subst ok. rewrite <- ER in *.
+      assert (HR' : RunC (S k) A' X) by (apply (runS alts votes pair_first ext_order j A Y (S k) X A'); auto; lia).
+      assert (Hsub : forall u, In u (rest X U) -> In u U /\ ~ In u X).
+      { intros u Hu. unfold rest in Hu. apply filter_In in Hu. destruct Hu as [H1 H2]. split; [assumption|].
+        now apply negb_true_iff, memN_false in H2. }
+      destruct (IH (S k) A' X (rest X U)) as [(j' & A'' & Y'' & HR'' & Hl'')|(j0 & A0 & Y0 & i & X0 & A'' & H1 & H2 & H3 & H4 & H5 & H6 & H7)].
+      * lia.
+      * assumption.
+      * assumption.
+      * eapply Permutation_NoDup; [apply Permutation_sym; exact Hperm|assumption].
+      * intros a Ha. apply Hin. eapply Permutation_in; [exact Hperm|assumption].
+      * intros u Hu. destruct (Hsub u Hu) as [HuU HuX]. apply remP_in. split; [now apply HinU|].
+        intros Hcc. cbn [Lspec] in Hcc. rewrite concat_app in Hcc. apply in_app_or in Hcc. destruct Hcc as [Hcc|Hcc].
+        -- pose proof (Hremk u HuU) as Hr. apply remP_in in Hr. tauto.
+        -- simpl in Hcc. rewrite app_nil_r in Hcc. pose proof (level_bottom U k u Hremk HuU Hcc) as Bu.
+           apply HuX. apply mkset_in. now apply Bcov.
+      * right. intros v Hv. destruct (Hvotes v Hv) as [Nv Iv].
+        destruct (exists_worst v U Nv) as (y & By); [intros a Ha; apply Iv; now apply HinU|assumption|].
+        exists y. assert (HyX : In y X) by (apply mkset_in; apply Bcov; exists v; auto). split; [assumption|].
+        intros u Hu. destruct (Hsub u Hu) as [HuU HuX]. apply (proj2 By); [assumption|]. intros ->. contradiction.
+      * intros a Ha. apply mkset_in in Ha. destruct Ha as [-> | ->]; now apply HinU.
+      * left. exists j', A'', Y''. split; [assumption|lia].
+      * right. exists j0, A0, Y0, i, X0, A''. repeat split; auto. lia.
+Qed.
+End Canon.
